@@ -270,7 +270,7 @@ def literal_sweep(ctx, res):
     for cid, _ in runs:
         lit, kind, src = meta[cid]
         out = ro[cid]
-        if out.startswith(('CRASH', 'TIMEOUT')) or 'inv=range' in out:
+        if out.startswith(('CRASH', 'TIMEOUT', 'MEMLIMIT')) or 'inv=range' in out:
             res.violations.append({'source': {'files': {'m': src}, 'main': 'm'}, 'what': 'range', 'detail': 'running the accepted program: ' + out[:200]})
 
 
@@ -393,7 +393,7 @@ def explore(ctx, res, replay=None):
         if any(c[0] in 'XI' for c in hist) and any(c[0] in 'BCSR' for c in hist):
             res.nontrivial.add((pi, tuple(hist)))
         res.count('len_%s' % ('1-4' if len(hist) <= 4 else '5-40' if len(hist) <= 40 else '41+'))
-        if tail.startswith('CRASH') or tail.startswith('TIMEOUT') or line == 'MISSING':
+        if tail.startswith('CRASH') or tail.startswith('TIMEOUT') or tail.startswith('MEMLIMIT') or line == 'MISSING':
             v = dict(case, what='crash', detail=tail or line)
             if pid in tag_for('crash'):
                 res.violations.append(v)
